@@ -344,6 +344,107 @@ let () =
        done with End_of_file -> ())
   | _ -> ()
 
+
+(* ---------- KB: back-end model (Compile.v) ---------- *)
+let sb = Buffer.create 65536
+let sp fmt = Printf.bprintf sb fmt
+let sp_nats (l : nat list) =
+  sp "("; List.iteri (fun i x -> if i > 0 then sp " "; sp "%d" (int_of_nat x)) l; sp ")"
+let sp_var = function
+  | VM -> sp "m" | VStart -> sp "start" | VLhs -> sp "lhs" | VRhs -> sp "rhs"
+  | VMk n -> sp "(mk %d)" (int_of_nat n)
+  | VElide -> sp "elide" | VKind -> sp "kind" | VMinBp -> sp "minbp"
+let b01 x = if x then 1 else 0
+let rec sp_stmt (s : stmt) =
+  match s with
+  | SExpect (t, tr, m) -> sp "(expect %d %d %d)" (int_of_nat t) (b01 tr) (int_of_nat m)
+  | SCall (r, q) -> sp "(call %d %d)" (int_of_nat r) (b01 q)
+  | SRec (bp, v, q) ->
+    sp "(rec "; (match bp with None -> sp "none" | Some b -> sp "%d" (int_of_nat b)); sp " "; sp_var v; sp " %d)" (b01 q)
+  | SLetMark v -> sp "(letmark "; sp_var v; sp ")"
+  | SLetOpen -> sp "(letopen)"
+  | SLetOpenBefore v -> sp "(letopenbefore "; sp_var v; sp ")"
+  | SLetElide -> sp "(letelide)"
+  | SSetElide -> sp "(setelide)"
+  | SKind (d, k) -> sp "(kind %d %d)" (b01 d) (int_of_nat k)
+  | SClose (k, a) -> sp "(close "; (match k with None -> sp "none" | Some k -> sp "%d" (int_of_nat k)); sp " %d)" (b01 a)
+  | SIfNotElide b -> sp "(ifnotelide "; sp_block b; sp ")"
+  | SCreate (v, k) -> sp "(create "; sp_var v; sp " %d)" (int_of_nat k)
+  | SAction n -> sp "(action %d)" (int_of_nat n)
+  | SAssert (n, o) -> sp "(assert %d %d)" (int_of_nat n) (b01 o)
+  | SSetChoice b -> sp "(setchoice %d)" (b01 b)
+  | SMatch (arms, d) ->
+    sp "(match (";
+    List.iteri (fun i ((pats, g), body) ->
+        if i > 0 then sp " ";
+        sp "("; sp_nats pats; sp " ";
+        (match g with None -> sp "none" | Some GTrue -> sp "true" | Some (GPred n) -> sp "%d" (int_of_nat n));
+        sp " "; sp_block body; sp ")") arms;
+    sp ") "; sp_block d; sp ")"
+  | SLoop b -> sp "(loop "; sp_block b; sp ")"
+  | SBreak -> sp "(break)"
+  | SContinue -> sp "(continue)"
+  | SIfBpBreak n -> sp "(ifbpbreak %d)" (int_of_nat n)
+  | SOrdChoice (se, sk, alts, lp, last, m) ->
+    sp "(ordchoice %d %d (" (b01 se) (b01 sk);
+    List.iteri (fun i (p, b) -> if i > 0 then sp " "; sp "("; sp_nats p; sp " "; sp_block b; sp ")") alts;
+    sp ") "; sp_nats lp; sp " "; sp_block last; sp " %d)" (int_of_nat m)
+  | SReturnIfError (e, o) ->
+    sp "(retiferr %s %d)" (match e with ENone -> "none" | EUncond -> "uncond" | ECond -> "cond") (b01 o)
+  | SError m -> sp "(error %d)" (int_of_nat m)
+  | SAdvErr m -> sp "(adverr %d)" (int_of_nat m)
+  | SOcr -> sp "(ocr)"
+and sp_block (b : stmt list) =
+  sp "("; List.iteri (fun i s -> if i > 0 then sp " "; sp_stmt s) b; sp ")"
+
+let sp_program (p : program) =
+  sp "(program (";
+  List.iteri (fun i (rid, f) ->
+      if i > 0 then sp " ";
+      sp "(fn %d %d " (int_of_nat rid) (b01 f.fn_opt); sp_block f.fn_body; sp " ";
+      (match f.fn_rec with
+       | None -> sp "none"
+       | Some (hb, b) -> sp "(rec %d " (b01 hb); sp_block b; sp ")");
+      sp ")") p.p_rules;
+  sp ") %d %d %d " (int_of_nat p.p_start) (int_of_nat p.p_start_kind) (int_of_nat p.p_part_kind);
+  sp_nats p.p_deletable; sp ")"
+
+let cinfo_of (x : sexp) : cinfo =
+  match x with
+  | L [A "cinfo"; L pls; kinds; pk] ->
+    let pl_of = function
+      | L [id; L [A "num"; n]] -> (nat_of id, PNum (nat_of n))
+      | L [id; L [A "rename"; k]] -> (nat_of id, PRename (opt_of nat_of k))
+      | L [id; L [A "create"; mk; k]] -> (nat_of id, PCreate (opt_of nat_of mk, nat_of k))
+      | _ -> failwith "payload" in
+    { ci_payload = List.map pl_of pls; ci_rule_kind = list_of nat_of kinds; ci_part_kind = nat_of pk }
+  | _ -> failwith "cinfo"
+
+let run_kb_line (line : string) =
+  match String.index_opt line '\t' with
+  | None -> pr "{\"r\":\"bad\",\"msg\":\"no tab\"}\n"
+  | Some i ->
+    let (g, ntoks) = grammar_of (parse_sexp (String.sub line 0 i)) in
+    let ci = cinfo_of (parse_sexp (String.sub line (i + 1) (String.length line - i - 1))) in
+    match analyse g (nat_of_int ntoks) (fun l -> l) with
+    | None -> pr "{\"r\":\"fuel\"}\n"
+    | Some s ->
+      Buffer.clear sb;
+      sp_program (compile g s ci);
+      pr "{\"r\":\"ok\",\"errors\":%d,\"prog\":\"%s\",\"msgsets\":[" (List.length (List.filter (fun (c, _) -> match c with W007 | W006 -> false | _ -> true) s.s_diags) + List.length s.s_mixed) (Buffer.contents sb);
+      List.iteri (fun i (id, ts) -> if i > 0 then pr ","; pr "[%d," (int_of_nat id); pr_natlist ts; pr "]") (all_msg_sets g s);
+      pr "]}\n"
+
+let () =
+  match Array.to_list Sys.argv with
+  | [_; "kb"] ->
+    (try while true do
+         let line = input_line stdin in
+         (try run_kb_line line with Stack_overflow -> pr "{\"r\":\"stackoverflow\"}\n" | Failure m -> pr "{\"r\":\"bad\",\"msg\":\"%s\"}\n" m);
+         flush_out ()
+       done with End_of_file -> ())
+  | _ -> ()
+
 (* ---------- K5: driver table ---------- *)
 let run_k5 () =
   let b x = if x then 1 else 0 in
@@ -364,6 +465,7 @@ let () =
   match Array.to_list Sys.argv with
   | [_; "k5"] -> run_k5 ()
   | [_; "k2"] -> ()
+  | [_; "kb"] -> ()
   | [_; "k1"] ->
     (try while true do
          let line = input_line stdin in
